@@ -25,9 +25,9 @@ import (
 
 type cwState struct {
 	empty, written, hasComma bool
-	events                   []string // "sep", "payload"
+	events                   []string             // "sep", "payload"
 	errs                     map[types.Object]int // local error variables: +1 nil, -1 non-nil
-	failAt                   int  // index of the write that fails (-1: none)
+	failAt                   int                  // index of the write that fails (-1: none)
 	nWrites                  int
 	ret                      string // "" | "zero-nil" | "err" | "forward" | "nil"
 }
